@@ -264,6 +264,10 @@ def check(ctx):
         seen_funcs.add(fi.id)
         w = repo.walker(inline_depth=ctx.depth, max_paths=ctx.max_paths)
         w.const_heap = parked          # a resolver / locator chosen by _compile is followed
+        # strictness holds under every interpreter configuration: a length test written as an
+        # assert statement does not exist under python -O / PYTHONOPTIMIZE
+        w.strip_asserts = True
+        w.unbound_raises = True        # ... and a local that no statement bound on the path is an UnboundLocalError
         paths = w.paths(fi.node, cls=ci)
         ctx.unit('paths', len(paths))
         for p in paths:
